@@ -1,8 +1,12 @@
 (* Sequential theory of the command ring (Model/Ring.v run by one thread):
    the invariant `wf`, what claim / write / read compute on well-formed states, and the
    abstraction to the FIFO of Spec/Fifo.v. *)
-Require Import V.Base.MachineInt V.Generated.GenConsts V.Model.LogBase V.Model.Ring V.Spec.Fifo
-               V.Proofs.RingArith.
+Require Import V.Base.MachineInt.
+Require Import V.Generated.GenConsts.
+Require Import V.Model.LogBase.
+Require Import V.Model.Ring.
+Require Import V.Spec.Fifo.
+Require Import V.Proofs.RingArith.
 From Coq Require Import ZifyBool Lia.
 Open Scope Z_scope.
 
